@@ -289,7 +289,7 @@ def run_property(prop_id, tier, seed, workers=None):
     order = list(range(len(spaces)))
     rnd.shuffle(order)
     spaces = [spaces[i] for i in order]
-    stats = explore(modname, spaces, workers=workers)
+    stats = explore(modname, spaces, workers=workers, chunk=getattr(mod, "CHUNK", 400))
     if hasattr(mod, "post"):
         mod.post(tier, stats)
 
